@@ -794,7 +794,7 @@ func (d *c48Destroy) formsScript() string {
 	if inAttachment {
 		sb.WriteString("access(all) resource R {\n" + fields + "}\n")
 		sb.WriteString("access(all) attachment A for R {\n  " + ev + "\n  access(all) var g: Int\n  init() { self.g = 2 }\n  access(all) fun mutate() { self.g = 21 }\n}\n")
-		sb.WriteString("access(all) fun main() {\n  let r <- attach A() to <- create R()\n  log(r.uuid); log(r[A]!.uuid)\n  r.mutate(); r[A]!.mutate()\n  destroy r\n}\n")
+		sb.WriteString("access(all) fun main() {\n  let r <- attach A() to <- create R()\n  log(r.uuid); log(r.uuid)\n  r.mutate(); r[A]!.mutate()\n  destroy r\n}\n")
 	} else {
 		sb.WriteString("access(all) resource R {\n  " + ev + "\n" + fields + "}\n")
 		sb.WriteString("access(all) fun main() {\n  let r <- create R()\n  log(r.uuid); log(r.uuid)\n  r.mutate()\n  destroy r\n}\n")
@@ -873,8 +873,9 @@ func (d *c48Destroy) nestScript() string {
 				}
 			}
 		}
-		fmt.Fprintf(&sb, "access(all) attachment N%d for N%d {\n  access(all) event ResourceDestroyed(uuid: UInt64 = self.uuid, tag: Int = self.tag)\n  access(all) var tag: Int\n  init() { self.tag = %d; log(self.uuid); log(%d) }\n  access(all) fun bump() { self.tag = self.tag + 1 }\n}\n",
-			n.Tag, parent, n.Tag*10+1, n.Tag)
+		// attachments have no uuid of their own: their event carries the base's
+		fmt.Fprintf(&sb, "access(all) attachment N%d for N%d {\n  access(all) event ResourceDestroyed(uuid: UInt64 = base.uuid, tag: Int = self.tag)\n  access(all) var tag: Int\n  init() { self.tag = %d }\n  access(all) fun bump() { self.tag = self.tag + 1 }\n}\n",
+			n.Tag, parent, n.Tag*10+1)
 	}
 	sb.WriteString("access(all) fun main() {\n")
 	fmt.Fprintf(&sb, "  let r <- %s\n  r.bump()\n  log(\"destroy\")\n", createExpr(root))
@@ -1032,7 +1033,17 @@ func (d *c48Destroy) judgeRun(res *rt.Result) (string, string) {
 		if n.Kind == "att" {
 			tag = n.Tag*10 + 2
 		}
-		want[fmt.Sprintf("%s.N%d.ResourceDestroyed(uuid: %s, tag: %d)", c48ScriptPrefix, n.Tag, uuidOf[n.Tag], tag)]++
+		uuid := uuidOf[n.Tag]
+		if n.Kind == "att" {
+			for _, p := range nodes {
+				for _, k := range p.Kids {
+					if k == n {
+						uuid = uuidOf[p.Tag]
+					}
+				}
+			}
+		}
+		want[fmt.Sprintf("%s.N%d.ResourceDestroyed(uuid: %s, tag: %d)", c48ScriptPrefix, n.Tag, uuid, tag)]++
 	}
 	got := map[string]int{}
 	for _, e := range res.Events {
@@ -1061,7 +1072,7 @@ func c48DestroyCases(env *mc.Env) []*c48Destroy {
 		out = append(out, &c48Destroy{Kind: "forms", Shape: f.Name, Forms: []string{f.Name}})
 	}
 	attOnly := func(n string) bool { return n == "base-field" || n == "attachment-self-field" }
-	attOK := func(n string) bool { return attOnly(n) || strings.HasPrefix(n, "lit-") || n == "self-uuid" }
+	attOK := func(n string) bool { return attOnly(n) || strings.HasPrefix(n, "lit-") }
 	for _, f := range c48Forms {
 		for _, g := range c48Forms {
 			if (attOnly(f.Name) && !attOK(g.Name)) || (attOnly(g.Name) && !attOK(f.Name)) {
